@@ -1289,6 +1289,37 @@ func evalBool(st *pstate, b *Sym) (bool, bool) {
 	if v, ok := st.facts[b.Key()]; ok {
 		return v, true
 	}
+	// a boolean that the path has compared with a boolean constant: `x == true` assumed false means x is false
+	bk := b.Key()
+	for _, c := range []bool{true, false} {
+		ck := "const(" + map[bool]string{true: "true", false: "false"}[c] + ")"
+		for _, k := range []string{"cmp(==," + bk + "," + ck + ")", "cmp(==," + ck + "," + bk + ")"} {
+			if v, ok := st.facts[k]; ok {
+				return v == c, true
+			}
+		}
+		for _, k := range []string{"cmp(!=," + bk + "," + ck + ")", "cmp(!=," + ck + "," + bk + ")"} {
+			if v, ok := st.facts[k]; ok {
+				return v != c, true
+			}
+		}
+	}
+	if c, ok := st.eqc[bk]; ok {
+		if c == "const(true)" {
+			return true, true
+		}
+		if c == "const(false)" {
+			return false, true
+		}
+	}
+	if m := st.neqc[bk]; m != nil {
+		if m["const(true)"] {
+			return false, true
+		}
+		if m["const(false)"] {
+			return true, true
+		}
+	}
 	return false, false
 }
 
